@@ -9,6 +9,13 @@ Two extractors:
                      to Lean 4 terms over BitVec (widths and signedness taken from the
                      AST's types, so C++ wrap-around is reproduced by construction).
 
+Site selectors (see AGENT_GUIDE.md) plus, added for C14: `for:N` (condition of the N-th for loop),
+`ptroff:N` (integer operand of the N-th `pointer + integer`, widened to 64 bits), `index:N` (byte offset
+of the N-th `p[i]`: index widened to 64 bits times sizeof(*p)); constructors are found by class name;
+`callarg:operator()#k.i` reaches arguments of functor calls; a pointer used as a truth value or compared
+with nullptr becomes a Bool parameter `<name>_nonnull`; `convertor(x)` / `(*convertor)(x)` becomes the
+application of a function parameter `convertor<width>`.
+
 Output files are only rewritten when their content changes (so lake does not rebuild
 for nothing).  Exit status 0 = everything translated; a site that cannot be found or
 uses a construct outside the supported subset is reported in Gen/Status.lean and in
@@ -198,6 +205,19 @@ class Broken(Exception):
     pass
 
 
+SIGS = {}
+
+
+def _try_ctype(p):
+    try:
+        return ctype(p)
+    except Exception:
+        return None
+
+
+CALLABLE = {}   # C++ function name -> Lean name of its whole-function translation (Funcs.lean)
+
+
 BUILTIN = {
     "bool": ("bool", 1, False),
     "char": ("int", 8, True), "signed char": ("int", 8, True), "unsigned char": ("int", 8, False),
@@ -244,9 +264,9 @@ class Tr:
         self.consts = consts; self.sizes = sizes
         self.free = []          # (name, lean type) in order of first appearance
         self.locals = dict(locals_ or {})   # name -> lean type of variables bound inside
+        self.opaque = False     # site option: calls with arguments become free variables
         self.byte_ptr = None    # name of the `const unsigned char*` parameter, if any
         self.cur_byte = None    # Lean name standing for *p inside a string-walk loop
-        self.conv_names = {}    # site key "conv": {"8": "my_conv8", ...} renames the convertor functions
 
     def fv(self, name, ty):
         name = lname(name)
@@ -285,9 +305,34 @@ class Tr:
             return "true" if v else "false"
         return f"{int(v) % (1 << w)}#{w}"
 
+    def opaque_call(self, n, inner):
+        """site option "opaque": a call with arguments (convertor(p->f), f<T>::g(x), ...) is not
+        looked into; it becomes a free variable named after callee and arguments, typed by the
+        call's result type, so that the conversions *around* the call are still translated."""
+        def leaf(x):
+            nm = ""
+            for y in walk(x):
+                if y.get("kind") == "MemberExpr" and y.get("name"):
+                    if y["name"].startswith("operator"):
+                        continue
+                    nm = y["name"]; break
+                if y.get("kind") == "DeclRefExpr":
+                    r = y.get("referencedDecl", {}).get("name", "")
+                    if r and not r.startswith("operator"):
+                        nm = r; break
+            return nm
+        parts = [leaf(c) for c in inner]
+        parts = [p for p in parts if p]
+        ct = ctype(n)
+        if ct[0] == "ptr":
+            raise Broken("pointer-valued opaque call")
+        return self.fv("_".join(parts) or "call", lean_ty(ct))
+
     def expr(self, n):
         k = n["kind"]
         inner = [c for c in n.get("inner", []) if not c.get("kind", "").endswith("Comment")]
+        if self.opaque and (k == "CXXOperatorCallExpr" or (k in ("CallExpr", "CXXMemberCallExpr") and len(inner) > 1)):
+            return self.opaque_call(n, inner)
         if k in ("ParenExpr", "ExprWithCleanups", "MaterializeTemporaryExpr", "CXXBindTemporaryExpr",
                  "ConstantExpr", "SubstNonTypeTemplateParmExpr"):
             return self.expr(inner[-1])
@@ -318,6 +363,17 @@ class Tr:
                 return self.expr(sub)
             if ck in ("IntegralCast", "IntegralToBoolean", "BooleanToSignedIntegral"):
                 return self.cast(self.expr(sub), ctype(sub), ctype(n))
+            if ck == "UserDefinedConversion" and ctype(n)[0] == "bool":
+                # e.g. std::vector<bool>::reference -> bool : `section_generated[index]`
+                names = []
+                for x in walk(sub):
+                    if x.get("kind") == "DeclRefExpr" and x.get("referencedDecl", {}).get("kind") in ("VarDecl", "ParmVarDecl"):
+                        nm2 = x["referencedDecl"].get("name", "")
+                        if nm2 and nm2 not in names: names.append(nm2)
+                if names:
+                    return self.fv("_".join(names), "Bool")
+            if ck == "PointerToBoolean":
+                return self.ptr_nonnull(sub)
             raise Broken(f"cast kind {ck}")
         if k == "UnaryOperator":
             op = n["opcode"]; sub = inner[0]
@@ -332,30 +388,35 @@ class Tr:
             if op == "-": return f"(-{e})"
             if op == "+": return e
             raise Broken(f"unary operator {op}")
-        if k == "CXXOperatorCallExpr":
-            # `convertor( x )` : endianness_convertor::operator() -> the generated conv<w>
-            # (the site file must define / import conv8, conv16, ...; need_conversion is a free variable)
-            if len(inner) == 3 and "endianness_convertor" in (inner[1].get("type", {}).get("qualType", "")):
-                ct = ctype(n); arg = inner[2]
-                e = self.cast(self.expr(arg), ctype(arg), ct)
-                fn = self.conv_names.get(str(ct[1]), f"conv{ct[1]}")
-                if ct[1] == 8:
-                    return f"({fn} {e})"
-                return f"({fn} {e} {self.fv('need_conversion', 'Bool')})"
-            raise Broken("overloaded operator call")
-        if k == "BinaryOperator" and n["opcode"] in ("==", "!=") and len(inner) == 2 and \
-                any(self.is_null_ptr(x) for x in inner):
-            # pointer compared with null: a Bool free variable `<name>_null`
-            other = inner[1] if self.is_null_ptr(inner[0]) else inner[0]
-            v = self.fv(self.ptr_name(other) + "_null", "Bool")
-            return v if n["opcode"] == "==" else f"(!{v})"
         if k == "BinaryOperator":
             op = n["opcode"]; a, b = inner
             if op == ",":
                 raise Broken("comma operator")
+            if getattr(self, "null_style", "nonnull") == "is_null" and op in ("==", "!=") and \
+                    (self.is_nullptr(a) or self.is_nullptr(b)):
+                # `p == nullptr` : the pointer's nullness becomes a Bool parameter `<p>_is_null`
+                other = b if self.is_nullptr(a) else a
+                v = self.fv(self.ptr_name(other) + "_is_null", "Bool")
+                return v if op == "==" else f"(!{v})"
             if op in ("&&", "||"):
                 return f"({self.expr(a)} {op} {self.expr(b)})"
             ta, tb, tr = ctype(a), ctype(b), ctype(n)
+            if ta[0] == "ptr" and tb[0] == "ptr" and op in ("==", "!="):
+                # comparison of a named pointer with nullptr
+                other = b if self.is_null(a) else a if self.is_null(b) else None
+                if other is None or (self.is_null(a) and self.is_null(b)):
+                    raise Broken("pointer comparison other than with nullptr")
+                if getattr(self, "null_style", "nonnull") == "null":
+                    x = other
+                    while x.get("kind") in ("ImplicitCastExpr", "ParenExpr") and x.get("inner"):
+                        x = x["inner"][-1]
+                    nm0 = x.get("referencedDecl", {}).get("name") if x.get("kind") == "DeclRefExpr" else x.get("name")
+                    if not nm0:
+                        raise Broken("pointer truth value of a compound expression")
+                    v = self.fv(nm0 + "_null", "Bool")
+                    return v if op == "==" else f"(!{v})"
+                e = self.ptr_nonnull(other)
+                return e if op == "!=" else f"(!{e})"
             ea, eb = self.expr(a), self.expr(b)
             if op in ("<<", ">>"):
                 sh_amt = self.shift_amount(b, eb)
@@ -408,7 +469,37 @@ class Tr:
                 if ct[0] == "ptr":
                     raise Broken(f"pointer-valued call {nm}")
                 return self.fv((pre + "_" if pre else "") + nm2, lean_ty(ct))
+            # `(obj->*F)()` with F a pointer to member bound at instantiation: same naming as obj->get_x()
+            cal = callee
+            while cal.get("kind") == "ParenExpr" and cal.get("inner"):
+                cal = cal["inner"][-1]
+            if cal.get("kind") == "BinaryOperator" and cal.get("opcode") in ("->*", ".*") and not args:
+                meth = ""
+                for x in walk(cal["inner"][1]):
+                    if x.get("kind") == "DeclRefExpr" and x.get("referencedDecl", {}).get("kind") == "CXXMethodDecl":
+                        meth = x["referencedDecl"].get("name", ""); break
+                if meth:
+                    pre = self.obj_name(cal["inner"][0])
+                    ct = ctype(n)
+                    if ct[0] == "ptr":
+                        raise Broken(f"pointer-valued call {meth}")
+                    return self.fv((pre + "_" if pre else "") + re.sub(r"^get_", "", meth), lean_ty(ct))
             raise Broken("member call with arguments")
+        if k == "CXXOperatorCallExpr" and len(inner) == 3 and \
+                "endianness_convertor" in (inner[1].get("type", {}).get("qualType", "")):
+            # (*convertor)(x) / convertor(x): the byte-order conversion of width w is a function parameter
+            ct = ctype(n)
+            f = self.fv(f"convertor{ct[1]}", f"BitVec {ct[1]} → BitVec {ct[1]}")
+            return f"({f} {self.cast(self.expr(inner[2]), ctype(inner[2]), ct)})"
+        if k == "CXXOperatorCallExpr" and len(inner) == 3 and \
+                any(x.get("referencedDecl", {}).get("name") == "operator[]" for x in walk(inner[0])):
+            # element of a container member: the (checked) read is the model's business; here it is a
+            # parameter `<container>_at_<index variable>`
+            ct = ctype(n)
+            if ct[0] == "ptr":
+                raise Broken("pointer-valued container element")
+            cont = self.obj_name(inner[1]); idx = self.obj_name(inner[2])
+            return self.fv(cont + "_at" + ("_" + idx if idx and idx != "obj" else ""), lean_ty(ct))
         if k == "CallExpr":
             # std::numeric_limits<T>::max()
             def callee_name(c):
@@ -426,7 +517,46 @@ class Tr:
                 else:
                     v = (1 << (w - 1)) if s else 0
                 return f"{v}#{w}"
+            if nm in CALLABLE and CALLABLE[nm] in SIGS:
+                sg = SIGS[CALLABLE[nm]]
+                argmap = {}
+                for pn, a in zip(sg["order"], inner[1:]):
+                    argmap[pn] = a
+                out = []
+                for pn, ty in sg["allp"]:
+                    if pn in argmap and pn not in sg["ptrs"]:
+                        out.append(self.expr(argmap[pn]))
+                    else:
+                        hit = None
+                        for pp in sg["ptrs"]:
+                            if pn.startswith(pp + "_") and pp in argmap:
+                                on = self.obj_name(argmap[pp])
+                                hit = self.fv(on + "_" + pn[len(pp) + 1:], ty)
+                        if hit is None:
+                            raise Broken(f"cannot supply parameter {pn} of {nm}")
+                        out.append(hit)
+                return "(Gen." + CALLABLE[nm] + " " + " ".join(out) + ")"
+            if nm in ("max", "min") and len(inner) == 3:
+                # std::min<T>(a, b) / std::max<T>(a, b) on integers
+                ct = ctype(n); a, b = inner[1], inner[2]
+                ea = self.cast(self.expr(a), ctype(a), ct); eb = self.cast(self.expr(b), ctype(b), ct)
+                lt = "BitVec.slt" if ct[2] else "BitVec.ult"
+                if nm == "min":
+                    return f"(if {lt} {eb} {ea} then {eb} else {ea})"
+                return f"(if {lt} {ea} {eb} then {eb} else {ea})"
             raise Broken(f"call to {nm}")
+        if k == "CXXOperatorCallExpr":
+            # `obj(x)` on a callable object with one integer argument (endianness_convertor):
+            # the callee stays opaque and becomes a function parameter `<obj><width>`
+            rd = inner[0]
+            while rd.get("kind") == "ImplicitCastExpr" and rd.get("inner"):
+                rd = rd["inner"][-1]
+            if rd.get("referencedDecl", {}).get("name") == "operator()" and len(inner) == 3:
+                ct = ctype(n); at = ctype(inner[2])
+                if ct[0] == "int" and at[:2] == ct[:2]:
+                    f = self.fv(self.obj_name(inner[1]) + str(ct[1]), f"BitVec {ct[1]} → BitVec {ct[1]}")
+                    return f"({f} {self.expr(inner[2])})"
+            raise Broken("operator call")
         if k == "UnaryExprOrTypeTraitExpr" and n.get("name") == "sizeof":
             ct = ctype(n)
             at = (n.get("argType") or {})
@@ -443,28 +573,119 @@ class Tr:
                 raise Broken(f"sizeof({q})")
         raise Broken(f"expression kind {k}")
 
-    def is_null_ptr(self, x):
-        while x.get("kind") in ("ParenExpr",) and x.get("inner"):
+    def is_null(self, x):
+        while x.get("kind") in ("ImplicitCastExpr", "ParenExpr", "CStyleCastExpr") and x.get("inner"):
+            if x.get("castKind") == "NullToPointer":      # the literal `0` used as a null pointer
+                return True
             x = x["inner"][-1]
-        if x.get("kind") == "ImplicitCastExpr" and x.get("castKind") == "NullToPointer":
-            return True
-        return x.get("kind") == "CXXNullPtrLiteralExpr"
+        return x.get("kind") in ("CXXNullPtrLiteralExpr", "GNUNullExpr")
 
-    def ptr_name(self, x):
-        while x.get("kind") in ("ParenExpr", "ImplicitCastExpr", "CXXConstCastExpr", "CXXReinterpretCastExpr",
-                                "CStyleCastExpr") and x.get("inner"):
+    def is_nullptr(self, n):
+        x = n
+        while x.get("kind") in ("ImplicitCastExpr", "ParenExpr", "CStyleCastExpr") and x.get("inner"):
+            if x.get("castKind") == "NullToPointer":      # `0 != p`
+                return True
+            x = x["inner"][-1]
+        return x.get("kind") in ("CXXNullPtrLiteralExpr", "GNUNullExpr")
+
+    def ptr_nonnull(self, x):
+        """a named pointer (variable / member) used as a truth value: Bool parameter `<name>_nonnull`"""
+        while x.get("kind") in ("ImplicitCastExpr", "ParenExpr") and x.get("inner"):
+            x = x["inner"][-1]
+        if x.get("kind") == "DeclRefExpr":
+            return self.fv(x.get("referencedDecl", {}).get("name", "p") + "_nonnull", "Bool")
+        if x.get("kind") == "MemberExpr":
+            return self.fv(x.get("name", "p") + "_nonnull", "Bool")
+        raise Broken("pointer truth value of a compound expression")
+    def ptr_off(self, n):
+        """pointer-valued expression -> (name of the base pointer, Lean term of the byte offset from it
+        as BitVec 64, or None for offset 0).  Only `char*`-style arithmetic (element size 1)."""
+        k = n["kind"]
+        inner = [c for c in n.get("inner", []) if not c.get("kind", "").endswith("Comment")]
+        if k in ("ParenExpr", "ExprWithCleanups", "MaterializeTemporaryExpr") or \
+           (k in ("ImplicitCastExpr", "CStyleCastExpr", "CXXStaticCastExpr", "CXXReinterpretCastExpr",
+                  "CXXConstCastExpr") and n.get("castKind", "") in ("LValueToRValue", "NoOp", "BitCast")):
+            return self.ptr_off(inner[-1])
+        if k == "DeclRefExpr":
+            return n.get("referencedDecl", {}).get("name", "ptr"), None
+        if k == "MemberExpr":
+            return n.get("name", "ptr"), None
+        if k == "CXXMemberCallExpr" and inner and inner[0].get("kind") == "MemberExpr" and len(inner) == 1:
+            pre = ""
+            base = inner[0].get("inner", [])
+            if base and base[0]["kind"] != "CXXThisExpr":
+                pre = self.obj_name(base[0])
+            return (pre + "_" if pre else "") + re.sub(r"^get_", "", inner[0].get("name", "ptr")), None
+        if k == "BinaryOperator" and n.get("opcode") in ("+", "-"):
+            a, b = inner
+            ta, tb = self.try_ctype(a), self.try_ctype(b)
+            if n["opcode"] == "+" and tb and tb[0] == "ptr" and ta and ta[0] == "int":
+                a, b, ta, tb = b, a, tb, ta
+            if ta and ta[0] == "ptr" and tb and tb[0] == "int":
+                q = (a.get("type", {}).get("desugaredQualType") or a.get("type", {}).get("qualType") or "")
+                if not re.fullmatch(r"(const )?(unsigned |signed )?char \*( const)?", q.strip()):
+                    raise Broken(f"pointer arithmetic on '{q}' (element size not 1)")
+                base, off = self.ptr_off(a)
+                d = self.cast(self.expr(b), tb, ("int", 64, tb[2]))
+                if n["opcode"] == "-":
+                    return base, (f"(-{d})" if off is None else f"({off} - {d})")
+                return base, (d if off is None else f"({off} + {d})")
+        raise Broken(f"pointer expression kind {k}")
+
+    def try_ctype(self, n):
+        try:
+            return ctype(n)
+        except Broken:
+            return None
+    def ptr_name(self, n):
+        x = n
+        while x.get("kind") in ("ImplicitCastExpr", "ParenExpr") and x.get("inner"):
             x = x["inner"][-1]
         if x.get("kind") == "DeclRefExpr":
             return x.get("referencedDecl", {}).get("name", "ptr")
         if x.get("kind") == "MemberExpr":
             return x.get("name", "ptr")
-        if x.get("kind") == "CXXMemberCallExpr" and len(x.get("inner", [])) == 1:
+        if x.get("kind") == "CXXMemberCallExpr":
             callee = x["inner"][0]
-            base = callee.get("inner", [])
-            pre = self.obj_name(base[0]) if base and base[0]["kind"] != "CXXThisExpr" else ""
-            nm = re.sub(r"^get_", "", callee.get("name", "ptr"))
-            return (pre + "_" if pre else "") + nm
-        raise Broken("pointer expression compared with null is not a variable / getter")
+            if callee.get("kind") == "MemberExpr" and len(x["inner"]) == 1:
+                base = callee.get("inner", [])
+                pre = self.obj_name(base[0]) if base and base[0]["kind"] != "CXXThisExpr" else ""
+                return (pre + "_" if pre else "") + re.sub(r"^get_", "", callee.get("name", "ptr"))
+        raise Broken("null comparison of an unsupported pointer expression")
+
+    def switch_groups(self, sw):
+        """`switch (e) { case A: case B: stmt; break; ... default: ... }` -> Lean term of type Nat:
+        the index (source order) of the label group selected by the scrutinee."""
+        inner = [c for c in sw.get("inner", []) if c.get("kind")]
+        scrut = inner[0]; body = inner[-1]
+        if body.get("kind") != "CompoundStmt":
+            raise Broken("switch body is not a block")
+        es = self.expr(scrut)
+        groups = []          # (labels, has_default)
+        kids = [c for c in body.get("inner", []) if not c.get("kind", "").endswith("Comment")]
+        for i, c in enumerate(kids):
+            if c.get("kind") in ("CaseStmt", "DefaultStmt"):
+                if groups and kids[i - 1].get("kind") not in ("BreakStmt", "ReturnStmt"):
+                    raise Broken("switch group falls through into the next one")
+                labels = []; dflt = False; x = c
+                while x.get("kind") in ("CaseStmt", "DefaultStmt"):
+                    xi = [y for y in x.get("inner", []) if y.get("kind")]
+                    if x["kind"] == "CaseStmt":
+                        if len(xi) != 2:
+                            raise Broken("case range")
+                        labels.append(self.cast(self.expr(xi[0]), ctype(xi[0]), ctype(scrut)))
+                    else:
+                        dflt = True
+                    x = xi[-1]
+                groups.append((labels, dflt))
+        if not groups:
+            raise Broken("switch without cases")
+        dflt_ix = next((i for i, g in enumerate(groups) if g[1]), len(groups))
+        out = ""
+        for i, (labels, _) in enumerate(groups):
+            if labels:
+                out += "if (" + " || ".join(f"{es} == {l}" for l in labels) + f") then {i} else\n"
+        return out + str(dflt_ix)
 
     def shift_amount(self, b, eb):
         x = b
@@ -484,6 +705,10 @@ class Tr:
             return x.get("name", "obj")
         if x.get("kind") == "CXXThisExpr":
             return ""
+        if x.get("kind") == "CXXMemberCallExpr" and x.get("inner"):
+            cal = x["inner"][0]
+            if cal.get("kind") == "MemberExpr" and cal.get("name") in ("get",) and cal.get("inner"):
+                return self.obj_name(cal["inner"][0])
         if x.get("kind") == "CXXOperatorCallExpr":   # e.g. unique_ptr::operator->
             for c in x.get("inner", [])[1:]:
                 r = self.obj_name(c)
@@ -562,6 +787,8 @@ class Tr:
 
     def assign_target(self, s):
         lhs = s["inner"][0]
+        if lhs["kind"] == "MemberExpr" and lhs.get("inner") and lhs["inner"][0].get("kind") == "CXXThisExpr":
+            return lname(lhs["name"])
         if lhs["kind"] != "DeclRefExpr":
             raise Broken("assignment to a non-variable")
         return lname(lhs["referencedDecl"]["name"])
@@ -674,7 +901,7 @@ def find_function(docs, spec):
     cands = []
     for d in docs:
         for n in walk(d):
-            if n.get("kind") in ("FunctionDecl", "CXXMethodDecl") and n.get("name") == spec["name"]:
+            if n.get("kind") in ("FunctionDecl", "CXXMethodDecl", "CXXConstructorDecl") and n.get("name") == spec["name"]:
                 if not any(c.get("kind") == "CompoundStmt" for c in n.get("inner", [])):
                     continue
                 cands.append((d, n))
@@ -690,6 +917,12 @@ def find_function(docs, spec):
         elif "spec_of" in spec:
             # explicit specialisation of a struct template: match the record's printed arg
             pass
+        if "fn_targs" in spec:
+            # instantiation of a member/function template: match its own template arguments
+            fa = [re.sub(r"^ELFIO::", "", a.get("type", {}).get("qualType", ""))
+                  for a in n.get("inner", []) if a.get("kind") == "TemplateArgument"]
+            if fa[:len(spec["fn_targs"])] != spec["fn_targs"]:
+                continue
         qt = n.get("type", {}).get("qualType", "")
         if "<dependent type>" in json.dumps(n)[:200000] and "targs" not in spec and "<dependent type>" in json.dumps(n):
             continue
@@ -699,14 +932,13 @@ def find_function(docs, spec):
             ps = [re.sub(r"ELFIO::", "", p) for p in ps]
             if ps != spec["params"]:
                 continue
+        if "fargs" in spec:
+            fa = [re.sub(r"^ELFIO::", "", a.get("type", {}).get("qualType", "")) for a in n.get("inner", [])
+                  if a.get("kind") == "TemplateArgument"]
+            if fa != spec["fargs"]:
+                continue
         if "record" in spec:
             if spec["record"] not in (d.get("name", ""), ) and not record_matches(d, n, spec["record"]):
-                continue
-        if "fargs" in spec:
-            # member function template: pick the specialisation by its own template arguments
-            fa = [re.sub(r"^ELFIO::", "", a.get("type", {}).get("qualType", ""))
-                  for a in n.get("inner", []) if a.get("kind") == "TemplateArgument"]
-            if fa[:len(spec["fargs"])] != spec["fargs"]:
                 continue
         out.append(n)
     if not out:
@@ -736,6 +968,20 @@ def record_matches(doc, fn, record):
 
 
 def select(fn, sel):
+    """`SELECTOR[/lhs|/rhs]*` : the suffixes descend into the operands of a binary operator
+    (for conditions such as `a >= b || p == nullptr` whose other half is about pointers)."""
+    sel, *path = sel.split("/")
+    node = select0(fn, sel)
+    for step in path:
+        while node.get("kind") in ("ParenExpr", "ExprWithCleanups") and node.get("inner"):
+            node = strip_comments(node)[-1]
+        if node.get("kind") != "BinaryOperator" or step not in ("lhs", "rhs"):
+            raise Broken(f"selector path /{step} on {node.get('kind')}")
+        node = strip_comments(node)[0 if step == "lhs" else 1]
+    return node
+
+
+def select0(fn, sel):
     body = [c for c in fn["inner"] if c.get("kind") == "CompoundStmt"][0]
     kind, _, arg = sel.partition(":")
     if kind == "function":
@@ -758,27 +1004,76 @@ def select(fn, sel):
                     if i == nth:
                         return n["inner"][1] if n["opcode"] == "=" else n
                     i += 1
+            elif n.get("kind") == "UnaryOperator" and n.get("opcode") in ("++", "--"):
+                # `x++;` / `--x;` count as assignments to x (value of x afterwards)
+                tgt = n["inner"][0]
+                if tgt.get("kind") == "DeclRefExpr" and tgt.get("referencedDecl", {}).get("name") == name:
+                    if i == nth:
+                        return n
+                    i += 1
         raise Broken(f"assignment to {name} #{nth} not found")
-    if kind in ("if", "while", "return", "for"):
-        want = {"if": "IfStmt", "while": "WhileStmt", "return": "ReturnStmt", "for": "ForStmt"}[kind]
+    if kind in ("if", "while", "return", "switch"):
+        want = {"if": "IfStmt", "while": "WhileStmt", "return": "ReturnStmt",
+                "switch": "SwitchStmt"}[kind]
         nth = int(arg or 0); i = 0
         for n in walk(body):
             if n.get("kind") == want:
                 if i == nth:
-                    if kind == "for":   # [init, condition variable, condition, increment, body]
-                        return n["inner"][2]
-                    return strip_comments(n)[0]
+                    if kind == "switch":
+                        return n
+                    ch = [c for c in strip_comments(n) if c.get("kind") != "DeclStmt"]
+                    return ch[0]
                 i += 1
         raise Broken(f"{kind} #{nth} not found")
-    if kind == "binop":
-        # binop:OP#k  = k-th binary operator with opcode OP (pre-order), e.g. `index * entry_size`
-        opc, _, nth = arg.rpartition("#"); nth = int(nth or 0); i = 0
+    if kind == "for":
+        nth = int(arg or 0); i = 0
         for n in walk(body):
-            if n.get("kind") == "BinaryOperator" and n.get("opcode") == opc:
+            if n.get("kind") == "ForStmt":
                 if i == nth:
-                    return n
+                    return n["inner"][2]          # [init, condition variable, condition, increment, body]
                 i += 1
-        raise Broken(f"binary operator {opc} #{nth} not found")
+        raise Broken(f"for #{nth} not found")
+    if kind in ("ptroff", "index"):
+        # ptroff:N = integer operand of the N-th `pointer + integer`; index:N = index of the N-th `p[i]`
+        nth = int(arg or 0); i = 0
+        def is_ptr(x):
+            q = x.get("type", {}).get("desugaredQualType") or x.get("type", {}).get("qualType", "")
+            return q.strip().endswith("*")
+        for n in walk(body):
+            if kind == "ptroff" and n.get("kind") == "BinaryOperator" and n.get("opcode") == "+" and is_ptr(n):
+                a, b = n["inner"]
+                if i == nth:
+                    return b if is_ptr(a) else a
+                i += 1
+            if kind == "index" and n.get("kind") == "ArraySubscriptExpr":
+                if i == nth:
+                    return n                      # translate_site scales the index by the element size
+                i += 1
+        raise Broken(f"{kind} #{nth} not found")
+    if kind == "deref":
+        # operand of the N-th `*p` (source order): translated to its byte offset from the base pointer
+        nth = int(arg or 0); i = 0
+        for n in walk(body):
+            if n.get("kind") == "UnaryOperator" and n.get("opcode") == "*":
+                if i == nth:
+                    return strip_comments(n)[0]
+                i += 1
+        raise Broken(f"dereference #{nth} not found")
+    if kind == "ptroffpm":
+        # integer operand of the N-th pointer addition `p + e` / `e + p` / `p - e`
+        nth = int(arg or 0); i = 0
+        for n in walk(body):
+            if n.get("kind") == "BinaryOperator" and n.get("opcode") in ("+", "-"):
+                q = n.get("type", {}).get("qualType", "")
+                if q.strip().endswith("*"):
+                    ops = strip_comments(n)
+                    ints = [o for o in ops if not o.get("type", {}).get("qualType", "").strip().endswith("*")]
+                    if len(ints) != 1:
+                        continue
+                    if i == nth:
+                        return ints[0]
+                    i += 1
+        raise Broken(f"pointer offset #{nth} not found")
     if kind == "callarg":
         callee, _, rest = arg.partition("#"); nth, _, argi = rest.partition("."); nth = int(nth or 0); argi = int(argi or 0); i = 0
         for n in walk(body):
@@ -801,7 +1096,8 @@ def translate_site(site, consts, sizes, key):
     docs = clang_docs(site["filter"], key)
     fn = find_function(docs, site)
     tr = Tr(consts, sizes)
-    tr.conv_names = dict(site.get("conv", {}))
+    tr.null_style = site.get("null_style", "nonnull")
+    tr.opaque = bool(site.get("opaque"))
     params = []
     for p in fn.get("inner", []):
         if p.get("kind") == "ParmVarDecl":
@@ -816,7 +1112,7 @@ def translate_site(site, consts, sizes, key):
                     params.append((lname(p["name"]), "List (BitVec 8)"))
                     tr.locals[lname(p["name"])] = "List (BitVec 8)"
             elif ct:
-                params.append((lname(p.get("name") or f"arg{len(params)}"), lean_ty(ct)))   # unnamed parameter
+                params.append((lname(p.get("name") or f"unnamed{len(params)}"), lean_ty(ct)))
     node = select(fn, site.get("select", "function"))
     if site.get("select", "function") == "function":
         for nme, ty in params:
@@ -828,14 +1124,41 @@ def translate_site(site, consts, sizes, key):
     else:
         if node.get("kind") == "CompoundAssignOperator":
             nm, body, rty = tr.assign(node)
+        elif node.get("kind") == "ArraySubscriptExpr":
+            # byte offset of p[i]: index converted to 64 bits, times sizeof(*p)
+            base, idx = node["inner"]
+            elem = ctype(node)
+            body = f"({tr.cast(tr.expr(idx), ctype(idx), ('int', 64, ctype(idx)[2]))} * {elem[1] // 8}#64)"
+            rty = "BitVec 64"
+        elif node.get("kind") == "UnaryOperator" and node.get("opcode") in ("++", "--"):
+            tgt = node["inner"][0]; ct = ctype(tgt)
+            if ct[0] != "int":
+                raise Broken("++/-- on a non-integer")
+            body = f"({tr.expr(tgt)} {'+' if node['opcode'] == '++' else '-'} 1#{ct[1]})"
+            rty = lean_ty(ct)
+        elif (tr.try_ctype(node) or ("", 0, 0))[0] == "ptr":
+            base, off = tr.ptr_off(node)
+            body = off if off is not None else "0#64"
+            rty = "BitVec 64"
+            site = dict(site, select=site.get("select", "") + f" = byte offset from `{base}`")
+        elif node.get("kind") == "SwitchStmt":
+            body = tr.switch_groups(node); rty = "Nat"
         else:
             body = tr.expr(node)
             rty = lean_ty(ctype(node))
+            if site.get("select", "").startswith("ptroff"):
+                # pointer arithmetic: the integer operand is converted to the 64-bit pointer difference type
+                body = tr.cast(body, ctype(node), ("int", 64, ctype(node)[2])); rty = "BitVec 64"
         allp = list(tr.free)
+    if site.get("select", "function") == "function":
+        ptrs = [lname(p["name"]) for p in fn.get("inner", []) if p.get("kind") == "ParmVarDecl"
+                and (lambda ct: ct is not None and ct[0] == "ptr")(_try_ctype(p)) and lname(p["name"]) not in dict(params)]
+        order = [lname(p["name"]) for p in fn.get("inner", []) if p.get("kind") == "ParmVarDecl"]
+        SIGS[site["lean"]] = {"order": order, "ptrs": ptrs, "allp": allp}
     sig = " ".join(f"({n} : {t})" for n, t in allp)
     src = f"{fn.get('loc', {}).get('line', fn.get('range', {}).get('begin', {}).get('line', '?'))}"
     txt = (f"/-- from `{site['filter']}` {site.get('targs', site.get('record', ''))} "
-           f"`{site['name']}` [{site.get('select', 'function')}] -/\n"
+           f"`{site['name']}`{''.join(' <' + t + '>' for t in site.get('fn_targs', []))} [{site.get('select', 'function')}] -/\n"
            f"def {site['lean']} {sig} : {rty} :=\n" + indent(body) + "\n")
     return txt
 
@@ -859,6 +1182,10 @@ def main():
     status = {}
     files = {}
     for s in sites:
+        if s.get("select", "function") == "function" and s.get("file") == "Funcs" and "record" not in s \
+           and s["name"] != "operator()":
+            CALLABLE[s["name"]] = s["lean"]
+    for s in sites:
         try:
             txt = translate_site(s, consts, sizes, key)
             status[s["lean"]] = "ok"
@@ -871,7 +1198,8 @@ def main():
         files.setdefault(s.get("file", "Sites"), []).append(txt)
     for f, parts in files.items():
         L = ["-- GENERATED by gen/translate.py from /repo/elfio (clang-14 AST). Do not edit.",
-             "import ElfioVerif.Gen.Layout", "set_option linter.unusedVariables false",
+             "import ElfioVerif.Gen.Layout" + ("" if f == "Funcs" else "\nimport ElfioVerif.Gen.Funcs"),
+             "set_option linter.unusedVariables false",
              "namespace ElfioVerif.Gen", ""] + parts + ["end ElfioVerif.Gen"]
         write_if_changed(os.path.join(OUT, f + ".lean"), "\n".join(L) + "\n")
     os.makedirs(BUILD, exist_ok=True)
